@@ -197,6 +197,40 @@ let do_btcc h =
   | POk b -> Printf.printf "R %s out=%s\n" id (hexitem b)
   | PExit1 -> Printf.printf "R %s exit1\n" id
 
+(* ---------------------------------------------------------------- transactions *)
+let rev_hex (l : z list) = hex (List.rev l)
+let tx_fields (t : tx) =
+  let b = Buffer.create 256 in
+  Buffer.add_string b (Printf.sprintf "ver=%s lock=%s" (string_of_z t.tx_version) (string_of_z t.tx_locktime));
+  List.iter (fun i ->
+    Buffer.add_string b (Printf.sprintf " in[%s:%s ss=%s seq=%s w=" (hex i.ti_prevout.op_hash) (string_of_z i.ti_prevout.op_n) (hexitem i.ti_scriptSig) (string_of_z i.ti_sequence));
+    List.iter (fun w -> Buffer.add_string b (hexitem w ^ ";")) i.ti_witness;
+    Buffer.add_string b "]") t.tx_vin;
+  List.iter (fun o -> Buffer.add_string b (Printf.sprintf " out[%s %s]" (string_of_z o.to_value) (hexitem o.to_spk))) t.tx_vout;
+  Buffer.add_string b (" reser=" ^ hex (ser_tx true t) ^ " txid=" ^ rev_hex (hash256 (txid_preimage t)) ^ " wtxid=" ^ rev_hex (hash256 (wtxid_preimage t)));
+  Buffer.contents b
+
+let do_tx h =
+  let id = get h "id" "" in
+  match parse_transaction (ascii (unhexstr (get h "a" ""))) with
+  | PtxFail -> Printf.printf "R %s fail\n" id
+  | PtxExn -> Printf.printf "R %s exn\n" id
+  | PtxOk (amounts, t) ->
+    let sv = if tx_has_witness t then 1 else 0 in
+    let line = Printf.sprintf "R %s ok amounts=%s sv=%d %s" id (String.concat "," (List.map string_of_z amounts)) sv (tx_fields t) in
+    let line = match Hashtbl.find_opt h "i" with
+      | None -> line
+      | Some ia ->
+        (match parse_tx (ascii (unhexstr ia)) with
+         | PtxFail -> line ^ " selfail"
+         | PtxExn -> line ^ " selexn"
+         | PtxOk tin ->
+           let txid = hash256 (txid_preimage tin) in
+           match select_input t txid (z_of_int (geti h "sel" (-1))) with
+           | None -> line ^ " selfail"
+           | Some (i, n) -> line ^ Printf.sprintf " sel=%s:%s intxid=%s" (string_of_z i) (string_of_z n) (rev_hex txid)) in
+    print_string (line ^ "\n")
+
 let run_case (l : string) =
   let (kind, h) = parse_line l in
   match kind with
@@ -205,6 +239,7 @@ let run_case (l : string) =
   | "snv" -> do_snv h
   | "script" -> do_script h
   | "btcc" -> do_btcc h
+  | "tx" -> do_tx h
   | _ -> Printf.printf "R %s unknownkind\n" (get h "id" "")
 
 let () =
